@@ -228,16 +228,63 @@ def shape_terms(run, specs, obs_by_id):
                       {"kind": "session", "spec": sessions.strip(names[i]), "correspondence": "Exec/VerifyExec.chk_shape"}, no_input=True)
 
 
+def weighted_cancellation(run):
+    """'Accepts iff every member verifies', against an adversary who knows the verifier: two members are made invalid by shifts of d1[k] that cancel
+    under the combination factors the verifier used for the untouched batch (read off the final product of a first run).  A verifier whose factors
+    depend on every response draws other factors for the altered batch and refuses it; the members are refused individually in any case."""
+    from props import c08
+    rng = run.rng
+    quick = run.tier == "quick"
+    batches = []
+    for bi in range(5 if quick else 40):
+        T = 1 + bi % 3
+        n = [2, 3, 4, 36, 5][bi % 5]
+        batches.append((bi, T, n, c08.make_batch(rng, n, T, quick)))
+    modes = ["VerifyOnly", "RecoverAndVerify"]
+    specs1 = [{"id": f"c03-w{bi}", "group": "fm", "members": mems, "with_gens": False, "_no_embed": True, "_no_modes": True,
+               "verifies": [{"mode": modes[bi % 2], "vmembers": [gen.vmember(mm, i) for i, mm in enumerate(mems)]}]} for (bi, T, n, mems) in batches]
+    obs1 = run_harness(["session"], [sessions.strip(x) for x in specs1], jobs=len(specs1))
+    specs2 = []
+    for (bi, T, n, mems), s1, o1 in zip(batches, specs1, obs1):
+        vo = o1["verifies"][0]
+        if vo["result"] != "ok":
+            run.violation(f"honest batch refused: {vo['result'][:80]}", {"kind": "session", "spec": sessions.strip(s1)})
+            continue
+        ws = c08.weights_of(s1["verifies"][0], o1, vo)
+        i, j = (0, n - 1) if n < 34 else (33, n - 1)
+        k = rng.randrange(T)
+        t = gen.rscalar(rng)
+        derived = [{"from": i, "ops": [{"op": "scalar_add", "field": "d1", "idx": k, "hex": gen.hx((ws[j] * t) % L)}]},
+                   {"from": j, "ops": [{"op": "scalar_add", "field": "d1", "idx": k, "hex": gen.hx((-ws[i] * t) % L)}]}]
+        vm = [gen.vmember(mm, q) for q, mm in enumerate(mems)]
+        vm[i] = gen.vmember(mems[i], n)
+        vm[j] = gen.vmember(mems[j], n + 1)
+        specs2.append({"id": f"c03-x{bi}", "group": "fm", "members": mems, "derived": derived, "with_gens": False, "log_merlin": False, "log_msm": False,
+                       "verifies": [{"mode": modes[bi % 2], "vmembers": vm}, {"mode": "VerifyOnly", "vmembers": [vm[i]]}, {"mode": "VerifyOnly", "vmembers": [vm[j]]}],
+                       "_pair": [i, j, k], "_n": n})
+    for s2, o2 in zip(specs2, run_harness(["session"], [sessions.strip(x) for x in specs2], jobs=max(1, len(specs2)))):
+        res = [v["result"] for v in o2["verifies"]]
+        run.count(["weighted-cancel", s2["_n"], res[0].split(":")[0]], {"attack": "two members invalid by cancelling shifts of d1[k] under observed combination factors", "batch": s2["_n"],
+                                                                        "pair": s2["_pair"][:2], "result": res[0][:60]})
+        run.bump("weighted cancellation attacks")
+        if res[1] == "ok" or res[2] == "ok":
+            run.violation("a member with a shifted response scalar verifies on its own", {"kind": "session", "spec": sessions.strip(s2), "verify": 1 if res[1] == "ok" else 2})
+        if res[0] == "ok":
+            run.violation(f"batch of {s2['_n']} ACCEPTED although members {s2['_pair'][0]} and {s2['_pair'][1]} do not verify on their own: their defects on d1[{s2['_pair'][2]}] cancel "
+                          f"under the combination factors observed for the untouched batch", {"kind": "session", "spec": sessions.strip(s2), "verify": 0})
+
+
 def run(run: Run):
     run.run_audit()
     specs = gen_specs(run)
     obs = sessions.run_sessions(run, specs, oracle, relevant=0x1FF, jobs=12)
     shape_terms(run, specs, {s["id"]: o for s, o in zip(specs, obs)})
+    weighted_cancellation(run)
     return run.finish(
         "proof",
         "batches of sizes around every chunk boundary with no / one / two invalid members (eight kinds of invalidity) at first / last / boundary / random "
         "positions, mixed aggregation factors and capacities, a random permutation of each, and ill-formed batch shapes; the batch verdict is compared with "
-        "the conjunction of singleton verdicts and with the Coq model (chunk by chunk); result length and alignment are checked; "
+        "the conjunction of singleton verdicts and with the Coq model (chunk by chunk); result length and alignment are checked; two members made invalid by shifts that cancel under the combination factors observed on a first run (batches of 2-36); "
         "distinct by (size bucket, #bad, bad kind, position class, outcome)",
         ["members of big batches are drawn from a pool of six distinct proofs"],
         TRUSTED)
